@@ -1,5 +1,5 @@
 INIT Init
 NEXT Next
 INVARIANT Agree
-CONSTANT MaxM = 3000
+CONSTANT MaxM = 1000
 CHECK_DEADLOCK FALSE
